@@ -1,7 +1,7 @@
 #!/bin/bash
 # usage: try_seeded_scratch.sh <name> <patch.diff> <PROP> [<PROP>...]
 # Like try_seeded.sh but against a scratch worktree + scratch harness copy (keeps /repo and /verif/target untouched);
-# evidence files are written to /verif/evidence as usual, so re-run the real check afterwards.
+# evidence files of these runs go to the scratch directory, never to /verif/evidence.
 N=$1; P=$2; shift; shift
 D=/root/scratch/$N
 [ -d $D/repo ] || /verif/driver/mkscratch.sh $N >/dev/null
@@ -13,7 +13,7 @@ git -C $D/repo apply "$P" || { echo "patch does not apply"; exit 2; }
 cd /verif
 for prop in "$@"; do
   echo "=== $prop with $P"
-  VERIF_HARNESS_DIR=$D/harness VERIF_TARGET_DIR=$D/target ./check $prop 2>&1 | grep -E "^VIOLATION|^  signature|^\[C|^INCONCLUSIVE prop" | cut -c1-300 | head -10
+  VERIF_EVIDENCE_DIR=$D/evidence VERIF_HARNESS_DIR=$D/harness VERIF_TARGET_DIR=$D/target ./check $prop 2>&1 | grep -E "^VIOLATION|^  signature|^\[C|^INCONCLUSIVE prop" | cut -c1-300 | head -10
   echo "rc=${PIPESTATUS[0]}"
 done
 git -C $D/repo checkout -q -- .
